@@ -285,6 +285,18 @@ func cmdCheck(writeBaseline bool, argv []string) int {
 	}
 	solveAll(obls, SolverCfg{WorkDir: work, TimeoutS: to, All: *tier == "thorough", KeepFiles: *keep})
 
+	// machine load must not turn into alarms: undecided obligations get one
+	// more attempt with four times the budget and less parallelism
+	var retry []*Obl
+	for _, o := range obls {
+		if o.Status == "timeout" || o.Status == "unknown" {
+			o.Status, o.Solver = "", ""
+			retry = append(retry, o)
+		}
+	}
+	if len(retry) > 0 {
+		solveAll(retry, SolverCfg{WorkDir: filepath.Join(work, "retry"), TimeoutS: to * 4, All: false, KeepFiles: *keep, Workers: 5})
+	}
 	solveAll(covers, SolverCfg{WorkDir: filepath.Join(work, "covers"), TimeoutS: 3, KeepFiles: *keep})
 	var vacuous []string
 	var dead []DeadPath
@@ -306,9 +318,44 @@ func cmdCheck(writeBaseline bool, argv []string) int {
 	blFile := filepath.Join(*verif, "baseline", prop+".json")
 	if writeBaseline {
 		var ids []string
+		// An obligation that is assumed after being asserted (loop invariants,
+		// callee preconditions, bounds/nil/div checks) and does not discharge
+		// taints what was proved under it: a failed invariant taints its whole
+		// function, the others every later obligation of the function.
+		taintAll := map[string]string{}
+		taintFrom := map[string]int{}
+		for _, r := range results {
+			for i, o := range r.VC.obls {
+				if o.Status == "unsat" || o.Status == "" {
+					continue
+				}
+				switch o.Kind {
+				case "inv-entry", "inv-pres":
+					taintAll[o.Func] = o.ID
+				case "requires", "bounds", "nil", "div0", "typeassert":
+					if _, ok := taintFrom[o.Func]; !ok {
+						taintFrom[o.Func] = i
+					}
+				}
+			}
+		}
+		pos := map[*Obl]int{}
+		for _, r := range results {
+			for i, o := range r.VC.obls {
+				pos[o] = i
+			}
+		}
 		for _, o := range obls {
-			if o.Status == "unsat" && o.Secs < 5 {
+			tainted := ""
+			if id, ok := taintAll[o.Func]; ok {
+				tainted = "undischarged invariant " + id
+			} else if from, ok := taintFrom[o.Func]; ok && pos[o] > from {
+				tainted = "follows an undischarged assumed check"
+			}
+			if o.Status == "unsat" && o.Secs < 12 && tainted == "" {
 				ids = append(ids, o.ID)
+			} else if tainted != "" && o.Status == "unsat" {
+				fmt.Printf("TAINTED (%s): %s\n", tainted, o.ID)
 			} else {
 				fmt.Printf("not in baseline: %-8s %5.2fs %s\n", o.Status, o.Secs, o.ID)
 			}
